@@ -552,6 +552,10 @@ pub fn run_program(lines: &[String], ctx: &mut Ctx) {
             "wsdi" => { crate::exec_wk::wsdi::exec_case(&id, body, ctx); true }
             "wun" => { crate::exec_wk::wun::exec_case(&id, body, ctx); true }
             "wsun" => { crate::exec_wk::wsun::exec_case(&id, body, ctx); true }
+            "zdi" => { crate::exec_wk::zdi::exec_case(&id, body, ctx); true }
+            "zsdi" => { crate::exec_wk::zsdi::exec_case(&id, body, ctx); true }
+            "zun" => { crate::exec_wk::zun::exec_case(&id, body, ctx); true }
+            "zsun" => { crate::exec_wk::zsun::exec_case(&id, body, ctx); true }
             x => panic!("unknown flavour {x}"),
         };
         i = j;
